@@ -295,6 +295,94 @@ class HdsChain(ChainSuite):
         return {"depth": len(case["layers"])}
 
 
+# ----------------------------------------------------------------------------- Parallels .hdd directories (snapshot chains)
+class HddChain(HdsChain):
+    """The same HDS layers, but assembled by HDD(path).open() from a DiskDescriptor.xml: snapshot chain through ParentGUID
+    links, TopGUID (default or explicit), images looked up per snapshot GUID; optional plain base image."""
+    name = "hdd_chain"
+    fmt = "hdd"
+
+    def generate(self, rng, tier):
+        cases = super().generate(rng, tier)[: (200 if tier == "thorough" else 16)]
+        for c in cases:
+            n = len(c["layers"])
+            guids = [rng.getrandbits(128) | 1 for _ in range(n)]
+            c["explicit_top"] = rng.chance(0.6)
+            if not c["explicit_top"]:
+                guids[0] = 0x5fbaabe3695840ff92a7860e329aab41
+            c["guids"] = guids
+            c["plain_base"] = rng.chance(0.3)
+            c["shot_order"] = rng.sample(range(n), n)
+            c["extra_shots"] = rng.randint(0, 2)
+            c["reqs"] = [r for r in c["reqs"] if r[0] == "bytes"] or [["bytes", 0, min(c["size"], 4096)]]
+        return cases
+
+    def _plain(self, case):
+        return core.SparseFile(case["size"], {}, salt=case["layers"][-1]["salt"] ^ 0x77)
+
+    def build_files(self, case):
+        files = [c06.SUITES["hds"].build_files(l)["file"] for l in case["layers"]]
+        if case.get("plain_base"):
+            files[-1] = self._plain(case)
+        return files
+
+    def impl(self, case):
+        from pathlib import Path
+        from dissect.hypervisor.disk.hdd import HDD
+        tmp = tempfile.mkdtemp(prefix="verif_c07h_")
+        try:
+            d = os.path.join(tmp, "disk.hdd")
+            os.makedirs(d)
+            files = self.build_files(case)
+            n = len(files)
+            g = lambda v: "{" + str(uuid.UUID(int=v)) + "}"  # noqa: E731
+            images = ""
+            for i, fh in enumerate(files):
+                fn = f"disk.hdd.0.{g(case['guids'][i])}.hds"
+                with open(os.path.join(d, fn), "wb") as w:
+                    w.write(fh.content(0, fh.size))
+                typ = "Plain" if (case.get("plain_base") and i == n - 1) else "Compressed"
+                images += f"<Image><GUID>{g(case['guids'][i])}</GUID><Type>{typ}</Type><File>{fn}</File></Image>"
+            shots = []
+            for i in range(n):
+                parent = g(case["guids"][i + 1]) if i + 1 < n else "{00000000-0000-0000-0000-000000000000}"
+                shots.append(f"<Shot><GUID>{g(case['guids'][i])}</GUID><ParentGUID>{parent}</ParentGUID></Shot>")
+            for k in range(case["extra_shots"]):
+                shots.append(f"<Shot><GUID>{g(0xABC000 + k)}</GUID><ParentGUID>{g(case['guids'][-1])}</ParentGUID></Shot>")
+            shots = [shots[i] for i in case["shot_order"]] + shots[n:]
+            top = f"<TopGUID>{g(case['guids'][0])}</TopGUID>" if case["explicit_top"] else ""
+            xml = ("<?xml version='1.0' encoding='UTF-8'?>\n<Parallels_disk_image Version=\"1.0\">"
+                   f"<Disk_Parameters><Disk_size>{case['size'] // 512}</Disk_size></Disk_Parameters>"
+                   f"<StorageData><Storage><Start>0</Start><End>{case['size'] // 512}</End><Blocksize>8</Blocksize>{images}"
+                   f"</Storage></StorageData><Snapshots>{top}{''.join(shots)}</Snapshots></Parallels_disk_image>")
+            with open(os.path.join(d, "DiskDescriptor.xml"), "w") as w:
+                w.write(xml)
+            out = {"open": None, "reqs": []}
+            try:
+                st = HDD(Path(d)).open()
+            except Exception as e:  # noqa: BLE001
+                out["open"] = {"outcome": "exc", "exc": type(e).__name__, "msg": str(e)[:200]}
+                return out
+            out["size"] = int(st.size)
+            for kind, a, b in case["reqs"]:
+                def f(a=a, b=b):
+                    st.seek(a)
+                    return st.read(b)
+                out["reqs"].append(call(f))
+            return out
+        finally:
+            shutil.rmtree(tmp, ignore_errors=True)
+
+    def layer_terms(self, case):
+        terms = super().layer_terms(case)
+        if case.get("plain_base"):
+            terms[-1] = "{| l_read := fun off n => Ok [SFile off n]; l_src := File |}"
+        return terms
+
+    def dist(self, case):
+        return {"depth": len(case["layers"]), "explicit_top": case["explicit_top"], "plain_base": case["plain_base"]}
+
+
 # ----------------------------------------------------------------------------- VHDX chains on disk
 BITMAP_PATTERNS = ["zero", "ones", "alt_bytes", "random", "straddle", "alt_bits"]
 
@@ -995,4 +1083,4 @@ class Qcow2Snapshots(Suite):
         return {"cluster_bits": case["active"]["cluster_bits"], "nops": len(case["ops"])}
 
 
-SUITES = {"qcow2_chain": Qcow2Chain(), "qcow2_snapshot": Qcow2Snapshots(), "vmdk_delta": VmdkDelta(), "vdi_chain": VdiChain(), "hds_chain": HdsChain(), "vhdx_chain": VhdxChain(), "open_layouts": OpenLayouts()}
+SUITES = {"hdd_chain": HddChain(), "qcow2_chain": Qcow2Chain(), "qcow2_snapshot": Qcow2Snapshots(), "vmdk_delta": VmdkDelta(), "vdi_chain": VdiChain(), "hds_chain": HdsChain(), "vhdx_chain": VhdxChain(), "open_layouts": OpenLayouts()}
